@@ -55,19 +55,59 @@ impl<T, U: ArraySize> IndexMut<core::ops::Range<usize>> for Array<T, U> {
                 final(self)@ == old(self)@.take(r.start as int) + final(o)@ + old(self)@.skip(r.end as int)
     { unimplemented!() }
 }
-impl<'a, T: Clone, U: ArraySize> TryFrom<&'a [T]> for Array<T, U> {
-    type Error = TryFromSliceError;
-    #[verifier::external_body]
-    fn try_from(slice: &'a [T]) -> (r: Result<Array<T, U>, TryFromSliceError>)
-        ensures r is Ok <==> slice@.len() == U::USIZE, r is Ok ==> r->Ok_0@ == slice@
-    { unimplemented!() }
+// `x.try_into()` is renamed token-wise to `x.shim_try_into()` (DESIGN 3.1): vstd's specification of the
+// blanket TryInto impl does not reach std's TryFrom<&[T]> for [T; N], so the conversions the repo uses
+// are declared here with the std / hybrid-array semantics as assumed contracts.
+pub trait ShimTryInto<U>: Sized {
+    type Error: core::fmt::Debug;
+    spec fn conv_ok(self) -> bool;
+    spec fn conv_eq(self, u: U) -> bool;
+    fn shim_try_into(self) -> (r: Result<U, Self::Error>)
+        ensures r is Ok <==> self.conv_ok(), r is Ok ==> self.conv_eq(r->Ok_0);
 }
-impl<'a, T, U: ArraySize> TryFrom<&'a [T]> for &'a Array<T, U> {
+impl<'a, T: Clone, U: ArraySize> ShimTryInto<Array<T, U>> for &'a [T] {
     type Error = TryFromSliceError;
     #[verifier::external_body]
-    fn try_from(slice: &'a [T]) -> (r: Result<&'a Array<T, U>, TryFromSliceError>)
-        ensures r is Ok <==> slice@.len() == U::USIZE, r is Ok ==> r->Ok_0@ == slice@
-    { unimplemented!() }
+    fn shim_try_into(self) -> (r: Result<Array<T, U>, TryFromSliceError>) { unimplemented!() }
+    open spec fn conv_ok(self) -> bool { self@.len() == U::USIZE }
+    open spec fn conv_eq(self, u: Array<T, U>) -> bool { u@ == self@ }
+}
+impl<'a, T, U: ArraySize> ShimTryInto<&'a Array<T, U>> for &'a [T] {
+    type Error = TryFromSliceError;
+    #[verifier::external_body]
+    fn shim_try_into(self) -> (r: Result<&'a Array<T, U>, TryFromSliceError>) { unimplemented!() }
+    open spec fn conv_ok(self) -> bool { self@.len() == U::USIZE }
+    open spec fn conv_eq(self, u: &'a Array<T, U>) -> bool { u@ == self@ }
+}
+impl<'a, T: Copy, const N: usize> ShimTryInto<[T; N]> for &'a [T] {
+    type Error = TryFromSliceError;
+    #[verifier::external_body]
+    fn shim_try_into(self) -> (r: Result<[T; N], TryFromSliceError>) { unimplemented!() }
+    open spec fn conv_ok(self) -> bool { self@.len() == N }
+    open spec fn conv_eq(self, u: [T; N]) -> bool { u@ == self@ }
+}
+#[derive(Debug)]
+pub struct TryFromIntError;
+impl ShimTryInto<usize> for u32 {
+    type Error = TryFromIntError;
+    #[verifier::external_body]
+    fn shim_try_into(self) -> (r: Result<usize, TryFromIntError>) { unimplemented!() }
+    open spec fn conv_ok(self) -> bool { self as int <= usize::MAX as int }
+    open spec fn conv_eq(self, u: usize) -> bool { u as int == self as int }
+}
+impl ShimTryInto<usize> for u64 {
+    type Error = TryFromIntError;
+    #[verifier::external_body]
+    fn shim_try_into(self) -> (r: Result<usize, TryFromIntError>) { unimplemented!() }
+    open spec fn conv_ok(self) -> bool { self as int <= usize::MAX as int }
+    open spec fn conv_eq(self, u: usize) -> bool { u as int == self as int }
+}
+impl ShimTryInto<usize> for u128 {
+    type Error = TryFromIntError;
+    #[verifier::external_body]
+    fn shim_try_into(self) -> (r: Result<usize, TryFromIntError>) { unimplemented!() }
+    open spec fn conv_ok(self) -> bool { self as int <= usize::MAX as int }
+    open spec fn conv_eq(self, u: usize) -> bool { u as int == self as int }
 }
 
 impl<T, U: ArraySize> Array<T, U> {
